@@ -77,7 +77,7 @@ func (e *Exec) loadAddr(st *State, a *Addr) Val {
 	case aElem:
 		n, srt := e.seqArr(a.ft)
 		s := e.sel(st, n, srt, a.base)
-		return e.elemFromTerm(sx("seq.nth", s, a.idx), a.ft, st)
+		return e.elemFromTerm(sx("select", s, a.idx), a.ft, st)
 	case aLocal:
 		la := st.larr[a.larr]
 		if la == nil {
@@ -106,9 +106,7 @@ func (e *Exec) storeAddr(st *State, a *Addr, v Val) {
 	case aElem:
 		n, srt := e.seqArr(a.ft)
 		cur := e.sel(st, n, srt, a.base)
-		upd := sx("seq.++", sx("seq.extract", cur, "0", a.idx), sx("seq.unit", elemTerm(v)),
-			sx("seq.extract", cur, sx("+", a.idx, "1"), sx("-", sx("seq.len", cur), a.idx, "1")))
-		e.upd(st, n, srt, a.base, upd)
+		e.upd(st, n, srt, a.base, sx("store", cur, a.idx, elemTerm(v)))
 	case aLocal:
 		la := st.larr[a.larr]
 		if la == nil || la.sliced {
@@ -207,8 +205,7 @@ func (e *Exec) execInstr(fr *Frame, st *State, in ssa.Instruction) bool {
 			fr.addrs[x] = &Addr{kind: aByte, base: xv.A[0], idx: idx, ft: sl.Elem(), T: x.X.Type()}
 			return true
 		}
-		s := e.seqOf(st, xv.t(), sl.Elem())
-		e.safety(fr, st, in, "index", sAnd(sx("<=", "0", idx), sx("<", idx, sx("seq.len", s))), "index out of range")
+		e.safety(fr, st, in, "index", sAnd(sx("<=", "0", idx), sx("<", idx, e.seqLen(st, xv.t()))), "index out of range")
 		fr.addrs[x] = &Addr{kind: aElem, base: xv.t(), idx: idx, ft: sl.Elem()}
 		return true
 	case *ssa.Index:
@@ -260,7 +257,13 @@ func (e *Exec) execInstr(fr *Frame, st *State, in ssa.Instruction) bool {
 		return true
 	case *ssa.Phi:
 		return true
-	case *ssa.If, *ssa.Jump:
+	case *ssa.If:
+		c := e.val(fr, x.Cond, st).t()
+		if c != "true" && c != "false" {
+			e.conds = append(e.conds, c)
+		}
+		return true
+	case *ssa.Jump:
 		return true
 	case *ssa.Return:
 		var vals []Val
@@ -318,9 +321,7 @@ func (e *Exec) execInstr(fr *Frame, st *State, in ssa.Instruction) bool {
 			return true
 		}
 		r := e.alloc(st, "mkslice", nil)
-		n, srt := e.seqArr(sl.Elem())
-		cur := e.sel(st, n, srt, r)
-		e.S.Assert(sEq(sx("seq.len", cur), ln))
+		e.setSeq(st, r, sl.Elem(), constArr(elemSort(sl.Elem())), ln)
 		// zero-length slices are fully known
 		fr.vals[x] = vRef(r).withT(x.Type())
 		return true
@@ -708,12 +709,11 @@ func (e *Exec) execSlice(fr *Frame, st *State, x *ssa.Slice) Val {
 			return vBytes(sConcat(parts...), "false").withT(x.Type())
 		}
 		r := e.alloc(st, "lit", nil)
-		n, srt := e.seqArr(arr.Elem())
 		var ts []string
 		for _, el := range la.elems {
 			ts = append(ts, elemTerm(el))
 		}
-		e.upd(st, n, srt, r, seqLit(elemSort(arr.Elem()), ts))
+		e.setSeq(st, r, arr.Elem(), seqLit(elemSort(arr.Elem()), ts), sInt(int64(len(ts))))
 		v := vRef(r).withT(x.Type())
 		v.Elems = append([]Val{}, la.elems...)
 		return v
@@ -737,8 +737,7 @@ func (e *Exec) execSlice(fr *Frame, st *State, x *ssa.Slice) Val {
 		return vBytes(sub, xv.A[1]).withT(x.Type())
 	}
 	sl := x.X.Type().Underlying().(*types.Slice)
-	s := e.seqOf(st, xv.t(), sl.Elem())
-	ln := sx("seq.len", s)
+	ln := e.seqLen(st, xv.t())
 	hi := ln
 	if x.High != nil {
 		hi = e.val(fr, x.High, st).t()
@@ -748,8 +747,13 @@ func (e *Exec) execSlice(fr *Frame, st *State, x *ssa.Slice) Val {
 		return xv.withT(x.Type())
 	}
 	r := e.alloc(st, "subslice", nil)
-	n, srt := e.seqArr(sl.Elem())
-	e.upd(st, n, srt, r, sx("seq.extract", s, lo, sx("-", hi, lo)))
+	if lo == "0" {
+		// a prefix shares the element array; only the length changes (modelled as a copy)
+		e.setSeq(st, r, sl.Elem(), e.seqOf(st, xv.t(), sl.Elem()), hi)
+	} else {
+		e.unsupported("%s: sub-slice with a non-zero lower bound of a non-byte slice", e.name)
+		e.setSeq(st, r, sl.Elem(), e.S.Fresh("subseq", "(Array Int "+elemSort(sl.Elem())+")"), sx("-", hi, lo))
+	}
 	e.note("%s: sub-slice of a non-byte slice is modelled as a copy (aliasing with the original not tracked)", e.name)
 	return vRef(r).withT(x.Type())
 }
